@@ -253,3 +253,29 @@ def request_stream_split(ctx, rule):
         o = f.origin(ru.field_op(s, "trailers"))
         ctx.check(o[0] == "agg" and o[1].endswith("::None"), rule, b.key, "send half starts without trailers",
                   "split() gives the send half trailers = %s" % fl.fmt(o), fl.fmt(o), b.loc(s))
+
+
+def bufrecv_poll_data(ctx, rule):
+    """<BufRecvStream as RecvStream>::poll_data: what is buffered goes out first, the transport is polled only with an empty
+    buffer, and end of stream is answered only on a path where the transport itself just answered Ok(None)."""
+    prog = ctx.prog
+    b = ru.need(ctx, rule, "<h3::stream::BufRecvStream as h3::quic::RecvStream>::poll_data")
+    if not b:
+        return
+    ps = [p for p in ru.all_paths(ctx, rule, b, max_visits=1) if p.end == "return"]
+    n_end = n_poll = 0
+    for p in ps:
+        tp = p.outcomes("h3::quic::RecvStream::poll_data")
+        first = [t[2] for t in p.tests if t[3][0] == "discr" and "take_first_chunk@" in t[1]]
+        if p.has_call("h3::quic::RecvStream::poll_data"):
+            n_poll += 1
+            ctx.check(first[:1] == ["None"], rule, b.key, "transport polled only when nothing is buffered",
+                      "poll_data polls the transport on a path where take_first_chunk() was %s" % first[:1], "", None, p.describe())
+        if p.ret_shape() == "Ready(Ok(None))":
+            n_end += 1
+            ctx.check(first[:1] == ["None"] and "None" in tp and "Err" not in tp, rule, b.key, "end of stream only when the transport just answered Ok(None) and nothing is buffered",
+                      "poll_data answers Ready(Ok(None)) on a path where the buffer was %s and the transport's answer was %s: bytes that arrived together "
+                      "with the FIN (e.g. the payload behind a WebTransport stream header) are never delivered" % (first[:1] or "not consulted", tp or "not asked"),
+                      "", None, p.describe())
+    ctx.floor(rule, "end-of-stream paths of BufRecvStream::poll_data", n_end, 1)
+    ctx.floor(rule, "transport-polling paths of BufRecvStream::poll_data", n_poll, 3)
